@@ -477,8 +477,20 @@ func (m *Mutex) Unlock() {
 	Yield()
 }
 
-// RWMutex replaces sync.RWMutex.
-type RWMutex struct{ mu sync.RWMutex }
+// RWMutex replaces sync.RWMutex. Besides mutual exclusion it keeps sync.RWMutex's documented
+// writer preference: from the moment a goroutine has called Lock, further RLock calls wait until that
+// writer has had the lock - so a goroutine that read-locks twice with a writer arriving in between
+// deadlocks here exactly as it does with the real mutex.
+type RWMutex struct {
+	mu sync.RWMutex
+	ww int // writers that have called Lock and not yet acquired it
+}
+
+//go:norace
+func (m *RWMutex) addWW(d int) { m.ww += d }
+
+//go:norace
+func (m *RWMutex) pendingW() bool { return m.ww > 0 }
 
 func (m *RWMutex) Lock() {
 	w := W
@@ -487,6 +499,8 @@ func (m *RWMutex) Lock() {
 		return
 	}
 	w.yield(false)
+	m.addWW(1)
+	defer m.addWW(-1) // also when the run is aborted while this task waits (the mutex may be process-wide)
 	for !m.mu.TryLock() {
 		w.yield(true)
 	}
@@ -500,7 +514,7 @@ func (m *RWMutex) RLock() {
 		return
 	}
 	w.yield(false)
-	for !m.mu.TryRLock() {
+	for m.pendingW() || !m.mu.TryRLock() {
 		w.yield(true)
 	}
 	w.progress()
